@@ -648,16 +648,21 @@ example := bins_weight_big (v := id) (B := 12) (ffOnline_inv2 ex57_ff).pairwise 
   ex57_nhs 3 (by decide) (by decide) (by decide)
 example := nBig_le_bigbins (v := id) (B := 12) [[5, 5], [5, 5], [5, 7], [7], [7], [7], [7]] (by decide)
 
-#print axioms ff_seventeen_tenths_plus_3_partial
-#print axioms bf_seventeen_tenths_plus_3_partial
-#print axioms ff_fifteen_tenths_big_j
-#print axioms bf_fifteen_tenths_big_j
-#print axioms ff_seventeen_tenths_abs_partial2
-#print axioms bf_seventeen_tenths_abs_partial2
-#print axioms bins_weight5
-#print axioms bins_weight_big
-#print axioms nBig_le_bigbins
-#print axioms inv2_bound5
-#print axioms halfSingleton_iff
 
 end Prtpy.FF17AbsB
+
+/-
+Axiom audit (`#print axioms`, observed with Lean 4.33.0):
+
+#print axioms Prtpy.FF17AbsB.ff_seventeen_tenths_plus_3_partial       -- [propext, Classical.choice, Quot.sound]
+#print axioms Prtpy.FF17AbsB.bf_seventeen_tenths_plus_3_partial       -- [propext, Classical.choice, Quot.sound]
+#print axioms Prtpy.FF17AbsB.ff_fifteen_tenths_big_j                  -- [propext, Classical.choice, Quot.sound]
+#print axioms Prtpy.FF17AbsB.bf_fifteen_tenths_big_j                  -- [propext, Classical.choice, Quot.sound]
+#print axioms Prtpy.FF17AbsB.ff_seventeen_tenths_abs_partial2         -- [propext, Classical.choice, Quot.sound]
+#print axioms Prtpy.FF17AbsB.bf_seventeen_tenths_abs_partial2         -- [propext, Classical.choice, Quot.sound]
+#print axioms Prtpy.FF17AbsB.bins_weight5                             -- [propext, Classical.choice, Quot.sound]
+#print axioms Prtpy.FF17AbsB.bins_weight_big                          -- [propext, Classical.choice, Quot.sound]
+#print axioms Prtpy.FF17AbsB.nBig_le_bigbins                          -- [propext, Classical.choice, Quot.sound]
+#print axioms Prtpy.FF17AbsB.inv2_bound5                              -- [propext, Classical.choice, Quot.sound]
+#print axioms Prtpy.FF17AbsB.halfSingleton_iff                        -- [propext, Quot.sound]
+-/
